@@ -31,7 +31,8 @@ def str_registry(name):
 def explore(ch, params, out):
     """Shared exploration: returns dict(samples, gen, reg, cfg) or None if inference failed (failure recorded)."""
     from vflib import oracles, pipeline
-    kinds = getattr(jsonsym, params.get("kinds", "KINDS_FULL"))
+    grammar = params.get("kinds") == "GRAMMAR1"
+    kinds = jsonsym.grammar1() if grammar else getattr(jsonsym, params.get("kinds", "KINDS_FULL"))
     n = params.get("samples", 2)
     keys = params.get("keys", ["a"])
     sym = params.get("symbolic_leaves", True)
@@ -48,8 +49,9 @@ def explore(ch, params, out):
     cfg["dkf"] = ch.flag("dict_keys_fields=[a]") if params.get("dkf") else False
     cfg["dkr"] = ch.choose("dict_keys_regex", [None, "k", r"[kj]$"]) if params.get("dkr") else None
     # two decodings of the same genome: leaves from the chooser (symbolic under CrossHair) / fixed representatives
-    samples_sym = [jsonsym.sample(ch, f"s{i}", cfg["kinds"][i], sym) for i in range(n)]
-    concrete = [jsonsym.sample(None, f"s{i}", cfg["kinds"][i], False) for i in range(n)]
+    mk = jsonsym.sample_from_descriptors if grammar else jsonsym.sample
+    samples_sym = [mk(ch, f"s{i}", cfg["kinds"][i], sym) for i in range(n)]
+    concrete = [mk(None, f"s{i}", cfg["kinds"][i], False) for i in range(n)]
     out.info = {"cfg": cfg, "samples": concrete}
     kw = dict(str_registry=str_registry(cfg["registry"]), dkr=[cfg["dkr"]] if cfg["dkr"] else None,
               dkf=["a"] if cfg["dkf"] else None)
@@ -207,6 +209,9 @@ def parts(tier):
         CH("three_nested_fields", "vflib.props.c01:scen_accept",
            {"kinds": "KINDS_NEST", "samples": 1, "keys": ["a", "b", "c"], "merge": ["default", "p50n2"]},
            shards=16, timeout=900, path_timeout=30, mode="CH-P+CH-E"),
+        CH("grammar_depth1_pairs", "vflib.props.c01:scen_accept",
+           {"kinds": "GRAMMAR1", "samples": 2, "keys": ["a"], "frameworks": ["pydantic", "attrs"], "layouts": ["flat"], "symbolic_leaves": False},
+           shards=16, timeout=900, path_timeout=30, mode="CH-E"),
         CH("datetime", "vflib.props.c01:scen_accept",
            {"kinds": "KINDS_DATE", "samples": 3, "keys": ["a"], "registries": ["datetime"], "frameworks": ["pydantic", "dataclasses", "attrs", "sqlmodel"]},
            shards=12, timeout=900, path_timeout=30, mode="CH-E"),
